@@ -284,6 +284,20 @@ func (r *Run) check(vars []*smt.Term, extra ...*smt.Term) (smt.Result, map[strin
 	if d := time.Since(t0); r.E.Cfg.RecordQueries && d > r.E.Cfg.SlowQuery && r.E.Cfg.SlowQuery > 0 {
 		r.E.dumpSlow(r.S.Script(extra...), d, res.String())
 	}
+	if res == smt.Unknown && r.E.Cfg.FallbackMs > 0 && r.S.Record != nil {
+		// second opinion before giving up: the same query as a standalone script on the other solvers
+		dirty := r.S.Dirty
+		script := r.S.Script(extra...)
+		if script != "" && !dirty {
+			for _, fb := range r.E.Cfg.FallbackSolvers {
+				res2, m2 := smt.RunScriptModel(fb[0], fb[1:], script, vars, time.Duration(r.E.Cfg.FallbackMs)*time.Millisecond)
+				if res2 != smt.Unknown {
+					r.E.noteFallback(fb[0], res2.String())
+					return res2, m2
+				}
+			}
+		}
+	}
 	if r.S.Dirty {
 		panic(abort{abInconclusive, "solver restarted: " + r.S.LastError})
 	}
